@@ -188,7 +188,8 @@ ClaimReq(r) ==
 \* forbidden, resources : [class -> amount]]
 ListProviders(s, f) ==
   {p \in Providers(s) :
-     /\ (f.name = "" \/ s.rp[p].name = f.name)
+     \* a provider may be named "": an absent name filter is has_name = FALSE, not name = ""
+     /\ (~f.has_name \/ s.rp[p].name = f.name)
      /\ (f.uuid = "" \/ p = f.uuid)
      /\ (f.in_tree = "" \/ SameTree(s, p, f.in_tree))
      /\ AnyOfOK(f.member_of, s.aggs[p])
